@@ -63,6 +63,14 @@ def main():
         sts = r["states"]
         for k in range(len(sts) - 1):
             dt = c["grid"][k + 1] - c["grid"][k]
+            if not (gen.all_finite(sts[k]) and gen.all_finite(sts[k + 1])):
+                # NaN states (dynamic calibration with an exactly-zero local scale, finding F21) cannot be converted to rationals;
+                # the estimate computed from / for them is not compared
+                ck.hist.setdefault("non_finite_states_skipped", {"n": 0})["n"] += 1
+                if not c["calib"].startswith("dyn"):
+                    ck.report(f"C07.{c['kind']}.non-finite-state", f"{c['kind']}/{c['calib']}/{c['lin']}: the solver produced non-finite states at step {k}",
+                              {"case": gen.jsonable(c)})
+                break
             emit.append(lambda c=c, a=sts[k], b=sts[k + 1], dt=dt: coq_error(c, a, b, dt)[0])
             meta.append((i, k))
     try:
